@@ -127,7 +127,7 @@ def reflective(prop, tier, seed, oracle_module, level_note, extra_obligations=No
             ores.append(r)
             obl.append(f)
         # source pins of the hand-modelled functions this property's theorems and correspondences rely on
-        pin_files = ['props/Pin_%s.v' % nm for nm in PINS_FOR.get(prop, [])]
+        pin_files = ['props/Pin_%s.v' % nm for nm in PINS_FOR.get(prop, []) + OBJECT_PINS]
         for r in coqbuild.build_many(pin_files):
             ores.append(r)
         obl += pin_files
@@ -539,7 +539,7 @@ def check_C01(tier, seed):
                       'order r3: avg tor[r^3] = avg jac[r^3] = 0. Hypotheses: admissibility (sG^2 = spsi^2 = 1, constants, etabar, curvature, d_varphi_d_phi non-zero, B0 > 0, |G0|/B0 > 0), sigma equation and O(r^2) system solved '
                       '(oracle residuals, measured each run). Not claimed because they contain coefficients the code sets to zero (Z3, X3c3, ...): rad[r^2], pol[r^4], the second harmonics of tor[r^3], jac[r^3]. '
                       'The harness evaluates the same claims on live objects with an independent numpy series algebra (FFT in the angle), all orders, both signs, symmetric and non-symmetric, fresh and history-built objects.',
-                      gprops=False, seq_obligations=C01_SEQ, theory_obligations=['Series'], ncorr=(8 if tier == 'quick' else 60),
+                      gprops=False, seq_obligations=C01_SEQ + ['props/Axis.v'], theory_obligations=['Series'], ncorr=(8 if tier == 'quick' else 60),
                       theorems=['C01_r1_h0', 'C01_r1_hN', 'C01_r2_h0', 'C01_r2_hN', 'C01_r3_h0', 'C01_r3_hN', 'pol3_avg_identity', 'crl1_identity', 'Series.teval_tmul', 'Series.teval_tdth_derive', 'Series.seval_smul'])
 
 
@@ -564,6 +564,8 @@ C01_SEQ_R2 = ['props/C04_spec.v', 'props/C01_spec.v', 'props/C01_common.v', ['pr
 C01_SEQ = ['props/C04_spec.v', 'props/C01_spec.v', 'props/C01_common.v', ['props/C01_facts2.v', 'props/C01_facts3.v', 'props/C01_r1.v'], 'props/C01_r2base.v', ['props/C01_r2a.v', 'props/C01_r2b.v', 'props/C01_r2c.v', 'props/C01_r3a.v', 'props/C01_r3b.v'], 'props/C01_r2.v', 'props/C01_r3.v', 'props/C01.v']
 
 
+# constructor and mutators of the object: every property quantifies over objects built (and, through the history-built inputs of the oracles, changed) through them
+OBJECT_PINS = ['qsc_init', 'qsc_calculate', 'qsc_set_dofs', 'qsc_change_nfourier', 'qsc_get_dofs']
 CLASSIC_USERS = {'theories/SpectralConv.v', 'theories/NewtonConv.v', 'props/C12_firstzero.v', 'props/C12_bridge.v'}
 # hand-modelled functions (tools/gen_pins.py) whose models carry theorems or oracle assumptions of each property
 PINS_FOR = {
